@@ -51,7 +51,7 @@ def writeSanity (m : Mem) (reserved : Nat) (k : Kind) (magic : Nat) : Mem :=
 
 def Opts.cfg (o : Opts) : Cfg :=
   { sync := o.sync, kind := o.kind, ro := false, retries := o.retries,
-    dataOffset := o.dataOffset, reserved := o.reserved, unify := o.unified }
+    dataOffset := o.dataOffset, reserved := o.reserved, unify := o.unified, fileBacked := o.file }
 
 /-- `Options::alloc` / `map_anon` / `map_mut` with `create_new`: `none` = construction refused
     (`check_capacity`: the prefix does not fit) -/
